@@ -352,7 +352,22 @@ def _v_find_halving(tree):
     g.body = M.stmts("while self._parent[x] != x:\n    x = self._parent[x] = self._parent[self._parent[x]]\nreturn x")
 
 
+def _v_prim_drops_isolated_keys(tree):
+    g = M.find_func(tree, "prim")
+    k = 1 if isinstance(g.body[0], ast.Expr) and isinstance(g.body[0].value, ast.Constant) else 0
+    g.body.insert(k, M.stmts("graph = {node: nb for node, nb in graph.items() if nb}")[0])
+
+
+def _t_prim_copies_graph(tree):
+    g = M.find_func(tree, "prim")
+    k = 1 if isinstance(g.body[0], ast.Expr) and isinstance(g.body[0].value, ast.Constant) else 0
+    g.body.insert(k, M.stmts("graph = dict(graph)")[0])
+
+
 VARIANTS = [
+    M.Variant("prim drops keys with an empty adjacency before anything else (seed C13-O)", MS, _v_prim_drops_isolated_keys, "C13-G15"),
+    M.Variant("twin: prim works on a dict() copy of the graph", MS, _t_prim_copies_graph, None),
+
     M.Variant("find rewritten with a broken path-halving chain assignment (seed C13-A)", "solvor/utils/data_structures.py", _v_find_halving, "C13-O3"),
 
     M.Variant("kruskal sorts by an endpoint", MS, _v_sort_other_key, "C13-O1"),
